@@ -4,7 +4,7 @@ Decided statically (necessary conditions, DESIGN.md section 6 C05): the shape of
 (single critical section, wrap constants, skip loop, publish/insert/return of the same candidate),
 who may touch the ID table, and that the driver never releases an ID that is still routed."""
 from facts import walk, callee_of, call_args, loc
-import hirq, anchors
+import hirq, anchors, absx, sem
 
 EXPLANATION = ("Structural rules over the typed HIR of the ID allocator and of every access to the ID table "
                "(Arc<Mutex<(RequestId, HashSet<RequestId>)>>): N1 one lock, every access through that guard; "
@@ -20,6 +20,25 @@ TRUSTED = ['std::sync::Mutex mutual exclusion', 'std HashSet semantics']
 ASSUMPTIONS = ['RequestId = i32 (checked through the resolved field types)']
 UNDECIDED = ['runtime wrap-around over 2^31 allocations (decided only as the allocator shape)']
 
+def check_step(ctx, A, root, V, o, CNT, carried, sig, MAX):
+    prev = None
+    if V == ('lit', 1):
+        at = [a for a, t in o.st.pc if t and a[0] == 'bin' and a[1] in ('Eq', 'Ge') and a[3] == ('lit', MAX)]
+        prev = at[0][2] if at else None
+        ctx.add('N2.wrap', A.path, loc(root), bool(at), 'the candidate is reset to 1 on a path that did not find the previous candidate equal to i32::MAX (%d)' % MAX)
+    elif V[0] == 'bin' and V[1] == 'Add' and V[3] == ('lit', 1):
+        prev = V[2]
+        neq = any((not t) and a[0] == 'bin' and a[1] in ('Eq', 'Ge') and a[2] == prev and a[3] == ('lit', MAX) for a, t in o.st.pc) or \
+            any(t and a[0] == 'bin' and a[1] == 'Lt' and a[2] == prev and a[3] == ('lit', MAX) for a, t in o.st.pc)
+        ctx.add('N2.step', A.path, loc(root), neq, 'the candidate is incremented on a path that did not exclude i32::MAX: the ID would leave 1..2^31-1')
+    else:
+        ctx.fail('N2.step', A.path, loc(root), 'the candidate value %s is neither 1 nor the previous candidate plus 1' % absx.fmt(V)[:60])
+    if prev is not None:
+        all_carried = [e for e in o.st.ev if e[0] == 'loop-carried'] or carried
+        from_counter = sem.strip_site(prev) == sem.strip_site(CNT) or \
+            (prev[0] == 'carried' and any(e[2] == prev for e in all_carried))
+        ctx.add('N2.init-from-counter', A.path + '|' + sig, loc(root), from_counter, 'the search does not start from the stored counter (guard.0)')
+
 def run(ctx):
     f = ctx.facts
     C = anchors.Conn(f)
@@ -27,119 +46,63 @@ def run(ctx):
     ctx.analysed['bodies'].update([C.alloc_path, C.op_call_path, C.loop_path])
     root = A.root
 
-    # ---- N1 single critical section
-    locks = [(n, c) for n, c in walk(root) if n['k'] == 'MethodCall' and (callee_of(n) or '').endswith('Mutex::<T>::lock')]
-    ctx.add('N1.single-lock', A.path, loc(root), len(locks) == 1,
-            'allocator must take the ID-table lock exactly once (found %d lock calls)' % len(locks))
-    guards = {b for b, d in A.defs.items() if anchors.is_idguard(d['pat'].get('ty'))}
-    ctx.add('N1.single-guard', A.path, loc(root), len(guards) == 1,
-            'exactly one guard binding over the ID table expected, found %d' % len(guards))
-    in_loop = [c for _, c in locks if any(a['k'] in ('Loop', 'For', 'While') for a, _ in c)]
-    ctx.add('N1.lock-outside-loop', A.path, loc(root), not in_loop, 'the lock is taken inside a loop (released between probes)')
-    # guard must not be dropped / re-bound before the end: no call to drop on it
-    drops = [n for n, c in walk(root) if n['k'] == 'Call' and (callee_of(n) or '').endswith('mem::drop')]
-    ctx.add('N1.no-early-unlock', A.path, loc(root), not drops, 'explicit drop inside the allocator')
-
-    # ---- candidate variable: argument of the insert
-    ins = [n for n, c in anchors.method_calls(root, 'HashSet::<T, S, A>::insert', C.is_idset_place)]
-    ctx.add('N4.single-insert', A.path, loc(root), len(ins) == 1, 'exactly one insert into the in-use set expected, found %d' % len(ins))
-    if len(ins) != 1:
-        return
-    cand = hirq.local_of(ins[0]['args'][0])
-    if cand is None:
-        ctx.fail('N4.insert-arg', A.path, loc(ins[0]), 'the inserted value is not a local candidate variable')
-        return
-    cname = A.defs[cand]['name']
-
-    # ---- the search loop: the loop that contains the `contains` probe
-    probes = anchors.method_calls(root, 'HashSet::<T, S, A>::contains', C.is_idset_place)
-    ctx.add('N3.single-probe', A.path, loc(root), len(probes) == 1, 'exactly one membership probe expected, found %d' % len(probes))
-    if len(probes) != 1:
-        return
-    probe, pctx = probes[0]
-    loop = None
-    for a, _ in reversed(pctx):
-        if a['k'] == 'Loop':
-            loop = a
-            break
-    if loop is None:
-        ctx.fail('N3.loop', A.path, loc(probe), 'membership probe is not inside a loop: no skip of IDs in use')
-        return
-    ctx.add('N3.probe-arg', A.path, loc(probe), hirq.local_of(probe['args'][0]) == cand,
-            'the membership probe tests something other than the candidate `%s`' % cname)
-
-    # ---- N2 initial value and update
-    d = A.defs[cand]
-    init = hirq.resolve_expr(A, d['src']) if d['src'] is not None else None
-    ctx.add('N2.init-from-counter', A.path, loc(root), init is not None and C.is_counter_place(init),
-            'candidate must start from the stored counter (guard.0)')
-    asg = A.assigns.get(cand, [])
-    in_loop_asg = [a for a in asg if any(x is loop for x, _ in A.context(a))]
-    out_loop_asg = [a for a in asg if a not in in_loop_asg]
-    ctx.add('N4.no-late-update', A.path, loc(root), not out_loop_asg,
-            'candidate is modified outside the search loop (after it was found free)')
-    updates = []   # (kind, condition-description)
-    for a in in_loop_asg:
-        conds = [c for c in hirq.conditions(A.context(a)) if c[0] in ('if', 'arm')]
-        # conditions inside the loop only
-        conds = [c for c in conds if any(x is loop for x, _ in A.context(c[1]))]
-        kind = None
-        if a['k'] == 'Assign' and hirq.const_eval(f, a['r']) == 1:
-            kind = 'reset'
-        elif a['k'] == 'AssignOp' and a['op'] == 'AddAssign' and hirq.const_eval(f, a['r']) == 1:
-            kind = 'inc'
-        elif a['k'] == 'Assign' and a['r']['k'] == 'Binary' and a['r']['op'] == 'Add' and \
-                {hirq.local_of(a['r']['l']), hirq.const_eval(f, a['r']['r'])} == {cand, 1}:
-            kind = 'inc'
-        if kind is None or len(conds) != 1 or conds[0][0] != 'if':
-            ctx.fail('N2.update-form', '%s|%s' % (A.path, kind), loc(a),
-                     'candidate update is neither `= 1` under the wrap test nor `+= 1` under its negation')
+    # ---- N1-N4: the allocator, decided on the enumerated paths of one *generic* iteration of its search loop
+    # (the candidate at the loop head is an arbitrary value an earlier iteration can have left; see absx.generic_loop)
+    outs, _I = sem.paths(f, A, generic_loops=True, combinators=True)
+    MAX = 2147483647
+    is_lock = lambda c: c.endswith('Mutex::<T>::lock')
+    def guard_of(o):
+        ls = sem.calls(o, is_lock)
+        return ls
+    exits = [o for o in outs if o.kind in ('val', 'ret')]
+    ctx.floor('N3', 'allocator exit paths', len(exits), 2)
+    n_lock_ok = True
+    for o in outs:
+        ls = sem.calls(o, is_lock)
+        if len(ls) != 1:
+            n_lock_ok = False
+    ctx.add('N1.single-lock', A.path, loc(root), n_lock_ok, 'the allocator must take the ID-table lock exactly once on every path (one critical section for read, probe and claim)')
+    locks_in_loop = [n for n, c in walk(root) if n['k'] == 'MethodCall' and is_lock(callee_of(n) or '') and any(a['k'] in ('Loop', 'For', 'While') for a, _ in c)]
+    ctx.add('N1.lock-outside-loop', A.path, loc(root), not locks_in_loop, 'the lock is taken inside a loop (released between probes)')
+    for o in exits:
+        V = o.val
+        sig = 'wrap' if V == ('lit', 1) else 'step'
+        ls = sem.calls(o, is_lock)
+        if len(ls) != 1:
             continue
-        iff, branch = conds[0][1], conds[0][2]
-        cmpn = iff['cond']
-        okc = cmpn['k'] == 'Binary' and cmpn['op'] in ('Eq', 'Ge') and hirq.local_of(cmpn['l']) == cand \
-            and hirq.const_eval(f, cmpn['r']) == 2147483647
-        ctx.add('N2.wrap-test', '%s|%s' % (A.path, kind), loc(cmpn), okc,
-                'wrap test must compare the candidate with i32::MAX (2147483647) using == (or >=)')
-        ctx.add('N2.wrap-branch', '%s|%s' % (A.path, kind), loc(a),
-                (kind == 'reset' and branch == 'then') or (kind == 'inc' and branch == 'els'),
-                'reset to 1 must be on the MAX branch and the increment on the other')
-        updates.append(kind)
-        ctx.add('N3.update-before-probe', '%s|%s' % (A.path, kind), loc(a), A.before(a, probe),
-                'the candidate is updated after it was probed: an unprobed value can be returned')
-    ctx.add('N2.updates', A.path, loc(loop), sorted(updates) == ['inc', 'reset'],
-            'expected exactly one reset-to-1 and one increment-by-1 of the candidate per iteration, found %s' % sorted(updates))
-
-    # ---- N3 loop exits
-    brs, rets = hirq.loop_exits(A, loop)
-    ctx.add('N3.no-return-in-loop', A.path, loc(loop), not rets, 'return inside the search loop bypasses publish/insert')
-    ctx.add('N3.has-exit', A.path, loc(loop), len(brs) >= 1, 'search loop has no exit')
-    for br in brs:
-        conds = [c for c in hirq.conditions(A.context(br)) if any(x is loop for x, _ in A.context(c[1]))]
-        ok = False
-        if len(conds) == 1 and conds[0][0] == 'if':
-            cnd, branch = conds[0][1]['cond'], conds[0][2]
-            neg = False
-            while cnd['k'] == 'Unary' and cnd['op'] == 'Not':
-                neg = not neg
-                cnd = cnd['e']
-            ok = cnd is probe and ((neg and branch == 'then') or (not neg and branch == 'els'))
-        ctx.add('N3.exit-only-when-free', A.path, loc(br), ok,
-                'the loop is left under a condition other than "candidate not in the in-use set"')
-
-    # ---- N4 publish / insert / return after the loop
-    stores = [a for n, c in walk(root) if n['k'] == 'Assign' and C.is_counter_place(n['l']) for a in [n]]
-    ctx.add('N4.single-store', A.path, loc(root), len(stores) == 1, 'exactly one store to the counter expected, found %d' % len(stores))
-    for s in stores:
-        ctx.add('N4.store-candidate', A.path, loc(s), hirq.local_of(s['r']) == cand, 'the stored counter is not the candidate')
-        ctx.add('N4.store-after-loop', A.path, loc(s), A.before(loop, s) and not any(x is loop for x, _ in A.context(s)),
-                'counter stored before the candidate is final')
-    ctx.add('N4.insert-after-loop', A.path, loc(ins[0]), A.before(loop, ins[0]) and not any(x is loop for x, _ in A.context(ins[0])),
-            'insert happens before the candidate is final')
-    ret = root.get('expr') if root['k'] == 'Block' else root
-    rets_all = [n for n, c in walk(root) if n['k'] == 'Ret']
-    ok_ret = ret is not None and hirq.local_of(ret) == cand and not rets_all
-    ctx.add('N4.return-candidate', A.path, loc(ret or root), ok_ret, 'the returned ID is not the candidate that was inserted')
+        i_lock, _c, largs, lnode = ls[0]
+        G = ('variant', ('call', _c, largs, lnode.get('id')), 'Ok', 0)
+        SET, CNT = ('field', G, '1'), ('field', G, '0')
+        is_set = lambda t: sem.strip_site(t) == sem.strip_site(SET)
+        # N2 the step function.  When the value at the exit is the loop-carried candidate itself (the step is taken before the
+        # probe loop and at the end of its body), the step is checked where each value the candidate can carry was computed.
+        carried = [e for e in o.st.ev if e[0] == 'loop-carried']
+        if V[0] == 'carried':
+            defs = [(e[4], o) for e in carried if e[2] == V] + [(lo.st.env[V[1]], lo) for lo in outs if lo.kind == 'loop' and V[1] in lo.st.env]
+            ctx.add('N2.step', A.path + '|defs', loc(root), len(defs) >= 2, 'the candidate carried around the probe loop has no visible definition')
+        else:
+            defs = [(V, o)]
+        for Vd, od in defs:
+            check_step(ctx, A, root, Vd, od, CNT, carried, sig, MAX)
+        # N3 left only when the candidate is free
+        free = any((not t) and a[0] == 'call' and a[1].endswith('HashSet::<T, S, A>::contains') and is_set(a[2][0]) and a[2][1] == V for a, t in o.st.pc) or \
+            any(t and a[0] == 'call' and a[1].endswith('HashSet::<T, S, A>::insert') and is_set(a[2][0]) and a[2][1] == V for a, t in o.st.pc) or \
+            sem.succeeded(o, lambda x: False)
+        ins = [(i, args) for i, cal, args, node in sem.calls(o, lambda c: c.endswith('HashSet::<T, S, A>::insert')) if is_set(args[0])]
+        if not free:
+            # `if set.insert(v) { break }`: the boolean result of insert is the probe
+            free = any(t and a[0] == 'call' and a[1].endswith('::insert') and a[2][1] == V for a, t in o.st.pc)
+        ctx.add('N3.exit-only-when-free', A.path + '|' + sig, loc(root), free, 'the allocator returns an ID on a path that did not find it absent from the in-use set')
+        # N4 claim: stored, inserted, returned - the same value, under the same guard
+        st_cnt = [(i, val) for i, place, val, node in sem.stores(o, lambda pl: sem.strip_site(pl) == sem.strip_site(CNT))]
+        ctx.add('N4.store-candidate', A.path + '|' + sig, loc(root), bool(st_cnt) and st_cnt[-1][1] == V,
+                'the shared counter is %s on the path returning %s: the next search would not start after this ID' % ('not written' if not st_cnt else 'set to ' + absx.fmt(st_cnt[-1][1])[:40], absx.fmt(V)[:40]))
+        ctx.add('N4.single-insert', A.path + '|' + sig, loc(root), len(ins) == 1 and ins[0][1][1] == V, 'the returned ID is not (exactly once) inserted into the in-use set')
+        drops = [i for i, cal, args, node in sem.calls(o, lambda c: c.endswith('mem::drop')) if sem.has(args[0], lambda x: sem.strip_site(x) == sem.strip_site(G))]
+        last_use = max([i for i, _v in st_cnt] + [i for i, _a in ins] + [0])
+        ctx.add('N1.no-early-unlock', A.path + '|' + sig, loc(root), all(d > last_use for d in drops), 'the guard is dropped before the ID is claimed')
+    probes_in_loop = [o for o in outs if o.kind == 'loop']
+    ctx.add('N3.loop', A.path, loc(root), len(probes_in_loop) >= 1, 'no path continues the search: an ID in use is not skipped')
 
     # ---- N2 initial table
     inits = []
@@ -180,7 +143,7 @@ def run(ctx):
                 for a in (n['args'] if n['k'] == 'Call' else n['args']):
                     pa = anchors.peel(a)
                     if anchors.is_idguard(pa.get('ty')) or C.is_idset_place(pa):
-                        if not (n['k'] == 'MethodCall' and C.is_idset_place(n['recv'])):
+                        if not (n['k'] == 'MethodCall' and C.is_idset_place(n['recv'])) and not (callee_of(n) or '').endswith('mem::drop'):
                             ctx.fail('N5.guard-escapes', path, loc(n), 'the ID-table guard or set is passed to another function')
     callers = hirq.all_calls(f, lambda c: c == C.alloc_path)
     ctx.add('N5.alloc-callers.count', C.alloc_path, '', len(callers) >= 1, 'allocator is never called')
